@@ -978,6 +978,223 @@ def G_fnptr2(ctx, prog, lem, site):
     return None
 
 
+def _copy_of(fn, l, depth=3):
+    """the local that temporary `l` is a plain copy of (its single definition is `use copy/move x`), followed transitively; else l"""
+    while depth > 0:
+        sd = fn.single_def(l)
+        if sd is None or sd[1] == 'term' or sd[2]['k'] != 'use':
+            return l
+        src = op_place(sd[2]['op'])
+        if src is None or not is_local(src) or fn.locals[l].get('name'):
+            return l
+        l = src['l']
+        depth -= 1
+    return l
+
+
+def _cursor_in_bounds(fn, idx_local, site_block):
+    """the usize local is known to be a valid index of an immutable slice parameter at the site: the site is dominated by the Some edge of
+    `slice.get(idx)` or by the true edge of `idx < slice.len()` (false edge of `idx >= slice.len()`), and the local is not assigned on
+    the way. Returns a description or None. (A valid index is < len <= isize::MAX, so adding a small constant cannot overflow.)"""
+    defs = fn.defs().get(idx_local, [])
+
+    def unchanged(start_edge):
+        region = between(fn, start_edge[1], site_block, barrier=(start_edge[0],))
+        return not any(db in region for (db, _i, _rv) in defs)
+
+    def is_idx(op):
+        pl = op_place(op)
+        if pl is None or not is_local(pl):
+            return False
+        if pl['l'] == idx_local:
+            return True
+        return _copy_of(fn, pl['l']) == idx_local
+    for b, t in fn.calls():
+        c = t['callee']
+        if c['name'] == 'get' and not c.get('local') and 'slice' in c['def'] and len(t['args']) == 2 and is_idx(t['args'][1]):
+            recv = arg_place(fn, t, 0)
+            if recv is None or not is_shared_param(fn, strip_trailing_deref(recv)):
+                continue
+            sw = switch_on_discriminant(fn, t['target'])
+            if sw is None or not same_place(sw[0], t['dest']):
+                continue
+            some = [tg for v, tg in sw[1] if v == 1]
+            if len(some) == 1 and fn.edge_dominates((t['target'], some[0]), site_block) and unchanged((t['target'], some[0])):
+                return 'dominated by the Some edge of slice.get(cursor) on an immutable slice, cursor not assigned in between'
+    # cursor < slice.len()
+    for blk in fn.blocks:
+        if blk['cleanup'] or blk['term']['k'] != 'switch':
+            continue
+        for st in blk['stmts']:
+            if st['k'] != 'assign' or st['rv']['k'] != 'binop' or st['rv']['op'] not in ('Lt', 'Ge', 'Gt', 'Le'):
+                continue
+            if op_place(blk['term']['discr']) is None or op_place(blk['term']['discr'])['l'] != st['pl']['l']:
+                continue
+            a, b_ = st['rv']['a'], st['rv']['b']
+            opn = st['rv']['op']
+            cand = None
+            if opn in ('Lt', 'Ge') and is_idx(a):
+                cand, true_means_in = b_, opn == 'Lt'
+            elif opn in ('Gt', 'Le') and is_idx(b_):
+                cand, true_means_in = a, opn == 'Gt'
+            if cand is None:
+                continue
+            lp = op_place(cand)
+            if lp is None or not is_local(lp):
+                continue
+            cd = call_def_of_local(fn, lp['l'])
+            is_len = False
+            if cd is not None and cd[1]['callee']['name'] == 'len' and not cd[1]['callee'].get('local'):
+                recv = arg_place(fn, cd[1], 0)
+                is_len = recv is not None and is_shared_param(fn, strip_trailing_deref(recv))
+            else:
+                sd = fn.single_def(lp['l'])
+                if sd is not None and sd[1] != 'term' and sd[2]['k'] == 'unop' and sd[2]['op'] == 'PtrMetadata':
+                    rp = op_place(sd[2]['a'])
+                    is_len = rp is not None and is_shared_param(fn, strip_trailing_deref(resolve_place(fn, rp)))
+            if not is_len:
+                continue
+            sw = blk['term']
+            false_t = [tg for v, tg in sw['targets'] if v == 0]
+            if not false_t:
+                continue
+            edge = (blk['id'], sw['otherwise']) if true_means_in else (blk['id'], false_t[0])
+            if fn.edge_dominates(edge, site_block) and unchanged(edge):
+                return 'dominated by `cursor < slice.len()` on an immutable slice, cursor not assigned in between'
+    return None
+
+
+def _small_values(prog, fn, op, depth=6):
+    """set of constants the usize operand can hold, when every source is a constant, a tuple field built from a constant, or the
+    same field of a crate function's result that is a constant on all of that function's paths; else None"""
+    v = const_value(op)
+    if isinstance(v, int) and not isinstance(v, bool):
+        return {v}
+    if depth <= 0:
+        return None
+    pl = op_place(op)
+    if pl is None:
+        return None
+    out = set()
+    proj = list(pl['p'])
+    via_try = False
+    if len(proj) >= 2 and isinstance(proj[0], dict) and proj[0].get('name') == 'Continue' and isinstance(proj[1], dict) and proj[1].get('f') == 0:
+        # the payload of `helper(..)?`: look through Try::branch to the call it was applied to
+        cd = call_def_of_local(fn, pl['l'])
+        if cd is None or cd[1]['callee']['name'] != 'branch' or not cd[1]['args']:
+            return None
+        inner = op_place(cd[1]['args'][0])
+        if inner is None or not is_local(inner):
+            return None
+        pl = dict(l=inner['l'], p=proj[2:])
+        proj = proj[2:]
+        via_try = True
+    fields = [p_ for p_ in proj if isinstance(p_, dict) and 'f' in p_]
+    if proj and len(fields) != len(proj):
+        return None
+    for (rb, idx, rv) in def_roots(fn, pl['l']):
+        if rb == 'arg':
+            return None
+        if idx == 'term':
+            t = rv
+            h = prog.by_path.get(t['callee']['def']) if t['callee'].get('local') else None
+            if h is None or depth <= 0:
+                return None
+            try:
+                # constant arguments are passed as such (a helper may return `length + 1` of a length it was given)
+                actual = [C(const_value(a)) if (isinstance(const_value(a), int) and not isinstance(const_value(a), bool)) else SYM('p%d' % i) for i, a in enumerate(t['args'])]
+                if len(actual) != h.arg_count:
+                    return None
+                ps = Interp(prog, max_depth=3, max_steps=60000).paths(h, actual)
+            except Budget:
+                return None
+            for ret, _e in ps:
+                if ret == ('diverge',):
+                    continue
+                x = ret
+                if via_try:
+                    if is_adt(x, 'result::Result', 'Err') or is_adt(x, 'option::Option', 'None'):
+                        continue
+                    if not (is_adt(x, 'result::Result', 'Ok') or is_adt(x, 'option::Option', 'Some')):
+                        return None
+                    x = x[4][0]
+                for f_ in fields:
+                    if x[0] == 'tuple' and f_['f'] < len(x[1]):
+                        x = x[1][f_['f']]
+                    elif x[0] == 'adt' and f_['f'] < len(x[4]):
+                        x = x[4][f_['f']]
+                    else:
+                        return None
+                if x[0] != 'c' or not isinstance(x[1], int) or isinstance(x[1], bool):
+                    return None
+                out.add(x[1])
+            continue
+        if fields:
+            if rv['k'] == 'aggregate' and fields[0]['f'] < len(rv.get('ops') or []) and len(fields) == 1:
+                r = _small_values(prog, fn, rv['ops'][fields[0]['f']], depth - 1)
+            elif rv['k'] == 'binop' and rv['op'] == 'AddWithOverflow' and len(fields) == 1 and fields[0]['f'] == 0:
+                ra, rb_ = _small_values(prog, fn, rv['a'], depth - 1), _small_values(prog, fn, rv['b'], depth - 1)
+                r = {x + y for x in ra for y in rb_} if ra and rb_ and len(ra) * len(rb_) <= 64 else None
+            elif rv['k'] == 'use' and op_place(rv['op']) is not None:
+                src = op_place(rv['op'])
+                r = _small_values(prog, fn, dict(k="copy", pl=dict(l=src["l"], p=list(src["p"]) + proj)), depth - 1)
+            else:
+                return None
+        elif rv['k'] == 'use':
+            r = _small_values(prog, fn, rv['op'], depth - 1)
+        elif rv['k'] == 'binop' and rv['op'] in ('Add', 'AddWithOverflow', 'AddUnchecked'):
+            ra, rb_ = _small_values(prog, fn, rv['a'], depth - 1), _small_values(prog, fn, rv['b'], depth - 1)
+            r = {x + y for x in ra for y in rb_} if ra and rb_ and len(ra) * len(rb_) <= 64 else None
+        else:
+            return None
+        if r is None:
+            return None
+        out |= r
+    return out or None
+
+
+def G_cursor(ctx, prog, lem, site):
+    """index cursor over an immutable slice: `slice[cursor]`, `cursor + k` and `cursor += consumed` where the cursor is known to be a
+    valid index at that point (so < isize::MAX) and what is added is a small constant / one of a few small constants"""
+    fn = site['fn']
+    t = site['term']
+    if t['k'] != 'assert':
+        return None
+    if t['kind'] == 'BoundsCheck':
+        ip = op_place(t['index'])
+        if ip is None or not is_local(ip):
+            return None
+        cur = _copy_of(fn, ip['l'])
+        lp = op_place(t['len'])
+        sd = fn.single_def(lp['l']) if lp is not None and is_local(lp) else None
+        if sd is None or sd[1] == 'term' or not (sd[2]['k'] == 'unop' and sd[2]['op'] == 'PtrMetadata'):
+            return None
+        cont = op_place(sd[2]['a'])
+        if cont is None or not is_shared_param(fn, strip_trailing_deref(resolve_place(fn, cont))):
+            return None
+        why = _cursor_in_bounds(fn, cur, site['block'])
+        return ('index cursor %s' % why) if why else None
+    if t['kind'] != 'Overflow':
+        return None
+    for st in fn.stmts(site['block']):
+        if st['k'] == 'assign' and st['rv']['k'] == 'binop' and st['rv']['op'] == 'AddWithOverflow' and op_place(t['cond']) is not None and op_place(t['cond'])['l'] == st['pl']['l']:
+            va, vb = _small_values(prog, fn, st['rv']['a']), _small_values(prog, fn, st['rv']['b'])
+            if va and vb and max(va) <= 64 and max(vb) <= 64 and min(va) >= 0 and min(vb) >= 0:
+                return 'sum of two small counts (%s + %s) cannot overflow' % (sorted(va), sorted(vb))
+            for cur_op, add_op in ((st['rv']['a'], st['rv']['b']), (st['rv']['b'], st['rv']['a'])):
+                cp = op_place(cur_op)
+                if cp is None or not is_local(cp) or fn.locals[cp['l']]['ty'] != 'usize':
+                    continue
+                cur = _copy_of(fn, cp['l'])
+                vals = _small_values(prog, fn, add_op)
+                if not vals or max(vals) > 64 or min(vals) < 0:
+                    continue
+                why = _cursor_in_bounds(fn, cur, site['block'])
+                if why:
+                    return 'cursor + %s cannot overflow: the cursor is a valid index (%s), hence < isize::MAX' % (sorted(vals), why)
+    return None
+
+
 def G_cutoff(ctx, prog, lem, site):
     """&tokens[cutoff..] in the tokenizer loop: path enumeration of one loop iteration by abstract interpretation;
     on every path the constant cutoff is <= the number of tokens proven present (1 by the loop guard, 2/3 via Some(..) of get(1)/get(2))"""
@@ -1003,4 +1220,4 @@ def G_cutoff(ctx, prog, lem, site):
     return 'all %d paths of one loop iteration slice at a constant cutoff <= the number of partial tokens proven present' % len(paths)
 
 
-GUARDS = [G_constarith, G_arity, G_tuplelen, G_nonempty, G_stackpop, G_afterpush, G_enough, G_discr, G_lensum, G_constinf, G_radix, G_fnptr, G_fnptr2, G_cutoff]
+GUARDS = [G_constarith, G_arity, G_tuplelen, G_nonempty, G_stackpop, G_afterpush, G_enough, G_discr, G_lensum, G_constinf, G_radix, G_fnptr, G_fnptr2, G_cursor, G_cutoff]
